@@ -8,7 +8,7 @@
 (* payload).  ret is the value the call returned.                               *)
 EXTENDS Integers, Sequences, TLC
 
-CONSTANTS Lens, MaxOps
+CONSTANTS Lens, MaxOps, Dev   \* Dev: "none" or the name of a seeded deviation (sharpness runs)
 VARIABLES lens, pos, rstart, rsize, ret, ops
 vars == <<lens, pos, rstart, rsize, ret, ops>>
 
@@ -21,35 +21,64 @@ IndexAt(ls, s) == CHOOSE i \in 1..Len(ls) : StartOf(ls, i) = s
 Init == /\ lens \in Lens /\ pos = 4 /\ rstart = 0 /\ rsize = lens[1]
         /\ ret = "none" /\ ops = <<>>
 
-NewRecord(off) == rstart' = off /\ rsize' = lens[IndexAt(lens, off)] /\ pos' = off + 4
+\* ---- the calls as functions of (file, cursor) -> cursor + return value ----
+Cur(p, s, z, r) == [pos |-> p, rstart |-> s, rsize |-> z, ret |-> r]
+NewRec(ls, off, r) == Cur(off + 4, off, IF off \in Starts(ls) THEN ls[IndexAt(ls, off)] ELSE -1, r)
+EofOf(ls, c) == c.pos = Length(ls)
 
-Next_ ==
-  /\ LET off == rstart + rsize + 8 IN
-     IF off < Length(lens) THEN NewRecord(off) /\ ret' = "true"
-     ELSE pos' = Length(lens) /\ UNCHANGED <<rstart, rsize>> /\ ret' = "false"
-  /\ ops' = Append(ops, "next") /\ UNCHANGED lens
+NextF(ls, c) ==
+  LET off == c.rstart + c.rsize + (IF Dev = "next_ignores_trailer" THEN 4 ELSE 8) IN
+  IF off < Length(ls) THEN NewRec(ls, off, "true")
+  ELSE Cur(Length(ls), c.rstart, c.rsize, "false")
 
-AtEof == pos = Length(lens)
 \* previous() is defined when the cursor is at the start of the payload of the
 \* current record, or at the end of the file
-PreviousDefined == pos = rstart + 4 \/ AtEof
-Previous_ ==
-  /\ PreviousDefined
-  /\ IF pos = 4 THEN UNCHANGED <<pos, rstart, rsize>> /\ ret' = "false"
-     ELSE IF AtEof
-          THEN \* from the end of the file: back to the start of the last record
-               NewRecord(StartOf(lens, Len(lens))) /\ ret' = "true"
-          ELSE NewRecord(StartOf(lens, IndexAt(lens, rstart) - 1)) /\ ret' = "true"
-  /\ ops' = Append(ops, "previous") /\ UNCHANGED lens
+PreviousDefinedF(ls, c) == c.pos = c.rstart + 4 \/ EofOf(ls, c)
+PreviousF(ls, c) ==
+  IF c.pos = 4 THEN Cur(c.pos, c.rstart, c.rsize, "false")
+  ELSE IF EofOf(ls, c)
+       THEN \* from the end of the file: back to the start of the last record
+            NewRec(ls, StartOf(ls, IF Dev = "previous_from_eof_skips" /\ Len(ls) > 1 THEN Len(ls) - 1 ELSE Len(ls)), "true")
+       ELSE NewRec(ls, StartOf(ls, IndexAt(ls, c.rstart) - 1), "true")
 
-Restart_ == NewRecord(rstart) /\ ret' = "none" /\ ops' = Append(ops, "restart") /\ UNCHANGED lens
+RestartF(ls, c) == NewRec(ls, c.rstart, "none")
 
 \* read one 4-byte item of the current payload
-Skip4_ == /\ ~AtEof /\ pos + 4 <= rstart + 4 + rsize
-          /\ pos' = pos + 4 /\ UNCHANGED <<rstart, rsize, lens>> /\ ret' = "none"
-          /\ ops' = Append(ops, "skip4")
+Skip4Defined(ls, c) == ~EofOf(ls, c) /\ c.pos + 4 <= c.rstart + 4 + c.rsize
+Skip4F(ls, c) == Cur(c.pos + 4, c.rstart, c.rsize, "none")
 
-Step == Next_ \/ Previous_ \/ Restart_ \/ Skip4_
+\* read(fmt) of a whole 4-byte item followed by the implicit next()
+ReadDefined(ls, c) == Skip4Defined(ls, c)
+ReadF(ls, c) == LET d == NextF(ls, Skip4F(ls, c)) IN Cur(d.pos, d.rstart, d.rsize, "none")
+
+EofF(ls, c) == Cur(c.pos, c.rstart, c.rsize, IF EofOf(ls, c) THEN "true" ELSE "false")
+
+Defined(op, ls, c) == CASE op = "previous" -> PreviousDefinedF(ls, c)
+                        [] op = "skip4" -> Skip4Defined(ls, c)
+                        [] op = "read" -> ReadDefined(ls, c)
+                        [] OTHER -> TRUE
+Apply(op, ls, c) == CASE op = "next" -> NextF(ls, c)
+                      [] op = "previous" -> PreviousF(ls, c)
+                      [] op = "restart" -> RestartF(ls, c)
+                      [] op = "skip4" -> Skip4F(ls, c)
+                      [] op = "read" -> ReadF(ls, c)
+                      [] op = "eof" -> EofF(ls, c)
+Ops == {"next", "previous", "restart", "skip4", "read", "eof"}
+
+Cursor == Cur(pos, rstart, rsize, ret)
+AtEof == EofOf(lens, Cursor)
+Do(op) == /\ Defined(op, lens, Cursor)
+          /\ LET d == Apply(op, lens, Cursor) IN
+               pos' = d.pos /\ rstart' = d.rstart /\ rsize' = d.rsize /\ ret' = d.ret
+          /\ ops' = Append(ops, op) /\ UNCHANGED lens
+Next_ == Do("next")
+Previous_ == Do("previous")
+Restart_ == Do("restart")
+Skip4_ == Do("skip4")
+Read_ == Do("read")
+Eof_ == Do("eof")
+
+Step == Next_ \/ Previous_ \/ Restart_ \/ Skip4_ \/ Read_ \/ Eof_
 Spec == Init /\ [][Len(ops) < MaxOps /\ Step]_vars
 
 \* ---- invariants ----------------------------------------------------------
@@ -58,6 +87,17 @@ PosInside == AtEof \/ (pos >= rstart + 4 /\ pos <= rstart + 4 + rsize)
 \* next() is false exactly on the last record
 NextFalseOnlyAtEnd == (Len(ops) > 0 /\ ops[Len(ops)] = "next") =>
                         (ret = "false" <=> AtEof)
+\* previous() after next() failed on the last record stays on that record
+PrevAfterFailedNext ==
+  [][(Len(ops) > 0 /\ ops[Len(ops)] = "next" /\ ret = "false" /\ Previous_) =>
+       (rstart' = rstart /\ pos' = rstart + 4)]_vars
+\* eof() answers the position question
+EofTruthful == (Len(ops) > 0 /\ ops[Len(ops)] = "eof") => (ret = "true" <=> pos = Length(lens))
+\* a forward scan by next() visits every record exactly once, in order
+ScanVisitsAll ==
+  (Len(ops) > 0 /\ \A i \in 1..Len(ops) : ops[i] = "next") =>
+     IF Len(ops) < Len(lens) THEN rstart = StartOf(lens, Len(ops) + 1) /\ ret = "true"
+     ELSE rstart = StartOf(lens, Len(lens)) /\ ret = "false"
 \* previous after a successful next returns to the record it came from
 PrevUndoesNext ==
   [][(Len(ops) > 0 /\ ops[Len(ops)] = "next" /\ ret = "true" /\ Previous_) =>
